@@ -15,7 +15,7 @@ BUDGET = {
     "C07": B(4500, 40000),
     "C08": B(4500, 40000),
     "C20": B(4500, 30000),
-    "C15": B(450, 3500, nondeterministic=True, cpu_limit=120, max_shrink=150),
+    "C15": B(450, 3500, nondeterministic=True, cpu_limit=120, max_shrink=150, wall_limit=20),
     "C11": B(3000, 28000),
     "C06": B(1800, 18000),
     "C13": B(1500, 14000),
